@@ -1,6 +1,7 @@
 package checks
 
 import (
+	"fmt"
 	"saomc/engine"
 	"saomc/world"
 )
@@ -66,40 +67,88 @@ func baseLife(id, tier string, p map[string]bool) LifeOpts {
 	return o
 }
 
+// r1Life: one replica, two providers, rounding-relevant size, both duration orders (renewal shorter and
+// longer than the current period), debt creation (drain) and capacity changes: reaches deeper histories.
+func r1Life(id, tier string, p map[string]bool) LifeOpts {
+	o := LifeOpts{ID: id + "-life-r1", Cfg: world.Config{}, SPs: []int{world.S1, world.S2}, Capacity: 10_000_000,
+		DataIds: []string{world.Data1}, Sizes: []uint64{1_000_000}, Replicas: []int32{1}, Durations: []uint64{7200}, Timeouts: []int32{100},
+		RenewDur: []uint64{3600, 7200}, Migrate: true, Claim: true, Terminate: true, Renew: true, Drain: true,
+		Roots: []string{"R0"}, Props: p, Depth: 7}
+	if tier == "thorough" {
+		o.Depth = 9
+		o.Durations = []uint64{3600, 7200}
+		o.Cancel = true
+		o.Mid = true
+	}
+	return o
+}
+
+// capLife: capacity pledge changes (add / remove around the free-capacity and rounding boundaries) interleaved
+// with store / complete / terminate / expiry.
+func capLife(id, tier string, p map[string]bool) LifeOpts {
+	o := LifeOpts{ID: id + "-life-cap", Cfg: world.Config{}, SPs: []int{world.S1, world.S2}, Capacity: 3_000_000,
+		DataIds: []string{world.Data1}, Sizes: []uint64{1_000_001}, Replicas: []int32{1}, Durations: []uint64{3600}, Timeouts: []int32{100},
+		RenewDur: []uint64{3600}, Terminate: true, RemoveCap: true, Roots: []string{"R0"}, Props: p, Depth: 6}
+	if tier == "thorough" {
+		o.Depth = 8
+		o.Renew, o.Migrate = true, true
+	}
+	return o
+}
+
+func lifeFamily(id, tier string, p map[string]bool, tweak func(kind string, o *LifeOpts)) []*engine.Scenario {
+	a, b := baseLife(id, tier, p), r1Life(id, tier, p)
+	if tweak != nil {
+		tweak("r2", &a)
+		tweak("r1", &b)
+	}
+	return []*engine.Scenario{LifeScenario(a), LifeScenario(b)}
+}
+
 func init() {
-	register(&Check{ID: "C13", Level: "model_checking", Workers: 16,
-		Rule:        "explicit-state DFS (iterative deepening) over the lifecycle alphabet on flat snapshots of the real application; every distinct reachable state is checked against the referential-integrity clauses; non-trivial = distinct states holding at least one completed shard",
-		Assumptions: lifeAssumptions,
-		Scenarios: func(tier string) []*engine.Scenario {
-			return []*engine.Scenario{LifeScenario(baseLife("C13", tier, props("C13")))}
-		}})
-	for _, id := range []string{"C04", "C06", "C07"} {
-		id := id
-		register(&Check{ID: id, Level: "model_checking", Workers: 16,
-			Rule:        "explicit-state DFS (iterative deepening) over the lifecycle alphabet on flat snapshots of the real application; escrow ledgers are recomputed from the records in every state and every transition's bank flows are compared with the change of the records; non-trivial = distinct states holding at least one completed shard",
-			Assumptions: lifeAssumptions,
+	const lifeRule = "explicit-state DFS (iterative deepening) on flat snapshots of the real application over (a) the lifecycle alphabet with 2 replicas / 3 providers, (b) the lifecycle alphabet with 1 replica / 2 providers incl. debt creation and both renewal lengths%s; step and state clauses of the property are evaluated on every transition / state; non-trivial = distinct states holding at least one completed shard"
+	toRule := fmt.Sprintf(lifeRule, ", (c) fault-sequence scenarios (every assigned provider completes or stays silent at every timeout interval, optional late joiner / update / cancel / migration)")
+	plainRule := fmt.Sprintf(lifeRule, "")
+	reg := func(id string, withTO bool, tweak func(kind string, o *LifeOpts)) {
+		rule := plainRule
+		if withTO {
+			rule = toRule
+		}
+		register(&Check{ID: id, Level: "model_checking", Workers: 16, Rule: rule, Assumptions: lifeAssumptions,
 			Scenarios: func(tier string) []*engine.Scenario {
-				return []*engine.Scenario{LifeScenario(baseLife(id, tier, props(id)))}
-			}})
-	}
-	for _, id := range []string{"C05", "C11", "C12", "C16"} {
-		id := id
-		register(&Check{ID: id, Level: "model_checking", Workers: 16,
-			Rule:        "explicit-state DFS (iterative deepening) over (a) the lifecycle alphabet and (b) the fault-sequence scenarios (every assigned provider completes or stays silent at every timeout interval) on flat snapshots of the real application; step and state clauses of the property are evaluated on every transition/state; non-trivial = distinct states holding at least one completed shard",
-			Assumptions: lifeAssumptions,
-			Scenarios: func(tier string) []*engine.Scenario {
-				o := baseLife(id, tier, props(id))
-				if id == "C16" || id == "C05" {
-					o.Update, o.ForcePush = true, id == "C16"
-					o.Migrate, o.Claim = false, false
+				out := lifeFamily(id, tier, props(id), tweak)
+				if withTO {
+					out = append(out, TimeoutFamily(id, tier, props(id))...)
 				}
-				return append([]*engine.Scenario{LifeScenario(o)}, TimeoutFamily(id, tier, props(id))...)
+				return out
 			}})
 	}
-	register(&Check{ID: "C14", Level: "model_checking", Workers: 16,
-		Rule:        "explicit-state DFS (iterative deepening) over the lifecycle alphabet on flat snapshots of the real application; every distinct reachable state is checked against the aggregate-accounting equalities; non-trivial = distinct states holding at least one completed shard",
-		Assumptions: lifeAssumptions,
-		Scenarios: func(tier string) []*engine.Scenario {
-			return []*engine.Scenario{LifeScenario(baseLife("C14", tier, props("C14")))}
-		}})
+	reg("C04", false, func(k string, o *LifeOpts) {
+		if k == "r1" {
+			o.Mid = true
+		}
+	})
+	reg("C06", false, nil)
+	for _, id := range []string{"C07", "C14"} {
+		id := id
+		register(&Check{ID: id, Level: "model_checking", Workers: 16, Rule: fmt.Sprintf(lifeRule, ", (c) capacity pledge add/remove around the free-capacity and rounding boundaries interleaved with store/complete/terminate/expiry"), Assumptions: lifeAssumptions,
+			Scenarios: func(tier string) []*engine.Scenario {
+				return append(lifeFamily(id, tier, props(id), nil), LifeScenario(capLife(id, tier, props(id))))
+			}})
+	}
+	reg("C13", true, nil)
+	reg("C11", true, nil)
+	reg("C12", true, nil)
+	upd := func(k string, o *LifeOpts) {
+		o.Update = true
+		o.Cancel = true
+		if k == "r1" {
+			o.Drain, o.Claim, o.Migrate = false, false, false
+			o.RenewDur = []uint64{3600}
+		} else {
+			o.Migrate, o.Claim = false, false
+		}
+	}
+	reg("C05", true, upd)
+	reg("C16", true, func(k string, o *LifeOpts) { upd(k, o); o.ForcePush = true })
 }
